@@ -44,6 +44,9 @@ public:
         Sasl2
     } saslVersion = Sasl;
     std::optional<Sasl2::Authenticate> sasl2AuthRequest;
+    // identifies the current SASL exchange: replies of the password checker that belong to an
+    // earlier (superseded, aborted or restarted) exchange are ignored
+    int saslExchangeId = 0;
 
     void checkCredentials(const QByteArray &response);
     QString origin() const;
@@ -70,12 +73,14 @@ void QXmppIncomingClientPrivate::checkCredentials(const QByteArray &response)
         QXmppPasswordReply *reply = passwordChecker->checkPassword(request);
         reply->setParent(q);
         reply->setProperty("__sasl_raw", response);
+        reply->setProperty("__sasl_exchange", saslExchangeId);
         QObject::connect(reply, &QXmppPasswordReply::finished,
                          q, &QXmppIncomingClient::onPasswordReply);
     } else if (saslServer->mechanism() == u"DIGEST-MD5") {
         QXmppPasswordReply *reply = passwordChecker->getDigest(request);
         reply->setParent(q);
         reply->setProperty("__sasl_raw", response);
+        reply->setProperty("__sasl_exchange", saslExchangeId);
         QObject::connect(reply, &QXmppPasswordReply::finished,
                          q, &QXmppIncomingClient::onDigestReply);
     }
@@ -195,6 +200,7 @@ void QXmppIncomingClient::handleStream(const QDomElement &streamElement)
         d->idleTimer->start();
     }
     d->saslServer.reset();
+    d->saslExchangeId++;
 
     // start stream
     const QByteArray sessionId = QXmppUtils::generateStanzaHash().toLatin1();
@@ -277,6 +283,7 @@ void QXmppIncomingClient::handleStanza(const QDomElement &nodeRecv)
 
         if (auto auth = Sasl2::Authenticate::fromDom(nodeRecv)) {
             d->saslVersion = QXmppIncomingClientPrivate::Sasl2;
+            d->saslExchangeId++;
             d->sasl2AuthRequest = std::move(auth);
             d->saslServer = QXmppSaslServer::create(d->sasl2AuthRequest->mechanism, this);
             if (!d->saslServer) {
@@ -326,6 +333,8 @@ void QXmppIncomingClient::handleStanza(const QDomElement &nodeRecv)
                 disconnectFromHost();
             }
         } else if (auto abort = Sasl2::Abort::fromDom(nodeRecv)) {
+            d->saslExchangeId++;
+            d->saslServer.reset();
             d->sasl2AuthRequest.reset();
             sendData(serializeXml(Sasl2::Failure { Sasl::ErrorCondition::Aborted, {} }));
         }
@@ -339,6 +348,7 @@ void QXmppIncomingClient::handleStanza(const QDomElement &nodeRecv)
 
         if (auto auth = Sasl::Auth::fromDom(nodeRecv)) {
             d->saslVersion = QXmppIncomingClientPrivate::Sasl;
+            d->saslExchangeId++;
             d->sasl2AuthRequest.reset();
             d->saslServer = QXmppSaslServer::create(auth->mechanism, this);
             if (!d->saslServer) {
@@ -477,6 +487,11 @@ void QXmppIncomingClient::onDigestReply()
     }
     reply->deleteLater();
 
+    // ignore replies that belong to an earlier SASL exchange
+    if (!d->saslServer || reply->property("__sasl_exchange").toInt() != d->saslExchangeId) {
+        return;
+    }
+
     if (reply->error() == QXmppPasswordReply::TemporaryError) {
         warning(u"Temporary authentication failure for '%1' from %2"_s.arg(d->saslServer->username(), d->origin()));
         Q_EMIT updateCounter(u"incoming-client.auth.temporary-auth-failure"_s);
@@ -522,6 +537,11 @@ void QXmppIncomingClient::onPasswordReply()
         return;
     }
     reply->deleteLater();
+
+    // ignore replies that belong to an earlier SASL exchange
+    if (!d->saslServer || reply->property("__sasl_exchange").toInt() != d->saslExchangeId) {
+        return;
+    }
 
     const QString jid = u"%1@%2"_s.arg(d->saslServer->username(), d->domain);
     switch (reply->error()) {
